@@ -935,8 +935,9 @@ impl Prop for C08 {
             if sh.shard == 0 {
                 for kind in 0..faults::JUMP_KINDS.len() {
                     for source in 0..faults::JUMP_SOURCES.len() {
-                        for target in 0..faults::JUMP_TARGETS.len() {
-                            let jc = faults::jump_case(kind, source, target);
+                        for case in 0..faults::JUMP_TARGETS.len() * 3 {
+                            let (target, order) = (case / 3, case % 3);
+                            let jc = faults::jump_case(kind, source, target, order);
                             let r = judge(sh, &jc.text, b"", "jump-scope-matrix", &["(matrix)"]);
                             if !sh.report(r) {
                                 return;
